@@ -2,41 +2,45 @@
 (***************************************************************************)
 (* ICAO Doc 9303-11 section 9.8 secure messaging between the terminal      *)
 (* (iso7816.NfcSession.DoAPDU + SecureMessaging.Encode/Decode), the chip    *)
-(* and an active adversary on the link.  Cryptography is symbolic:          *)
-(*   Mac(k, ssc, d87, d99)  -- the value of DO'8E'                          *)
-(*   Enc(k, pt)             -- the value of DO'87' (pt = data id)           *)
-(* The adversary knows no session key; it can forward, drop, alter,         *)
+(* and an active adversary on the link (C03, C10).                          *)
+(*                                                                         *)
+(* Cryptography is symbolic; every value is a record so that TLC can        *)
+(* compare them:                                                            *)
+(*   Mac(k, ssc, d87, d99)  the value of DO'8E'                             *)
+(*   Enc(k, pt)             the value of DO'87' (pt = a data id)            *)
+(* The adversary knows no session key; it can forward, withhold, alter,     *)
 (* re-order, duplicate, delete and replay anything that crossed the link,   *)
-(* inject unprotected answers and responses of another session (key OK).    *)
+(* inject unprotected answers and well-formed responses of another session. *)
 (*                                                                         *)
 (* One action per step of DoAPDU:                                           *)
-(*   TermEncode     Encode: SSC+1, protect the command                      *)
-(*   AdvOnCommand   pass | alter | withhold                                 *)
-(*   ChipProcess    9303-11: verify at SSC+1, answer at SSC+2 (any status,  *)
-(*                  with or without data); on an SM error answer            *)
-(*                  unprotected and delete the session                      *)
-(*   AdvOnResponse  the moves of Appendix B of DESIGN.md                    *)
-(*   TermDecode     the checks of SecureMessaging.Decode in code order      *)
-(* NakedRollback is the as-built switch: the terminal decrements its SSC    *)
-(* when it receives an unprotected (data-less) response.                    *)
+(*   TermEncode       Encode(): SSC+1, protect the command                  *)
+(*   AdvOnCommand(m)  pass | alter | withhold                               *)
+(*   ChipProcess      9303-11: verify at SSC+1, answer at SSC+2 (any status, *)
+(*                    with or without data); on a secure-messaging error     *)
+(*                    answer unprotected and delete the session              *)
+(*   AdvOnResponse(mv) the labelled moves of DESIGN.md Appendix B            *)
+(*   TermDecode       the checks of SecureMessaging.Decode in code order     *)
+(* NakedRollback is the as-built switch: the terminal decrements its SSC     *)
+(* when it receives an unprotected (data-less) response.                     *)
 (***************************************************************************)
 EXTENDS Integers, Sequences, FiniteSets
 
 CONSTANTS M,              \* SSC modulus (real: 2^64 / 2^128)
           MaxEx,          \* number of exchanges explored
           Statuses,       \* status words the chip may answer (protected)
-          Datas,          \* response data ids (0 = no data)
+          Datas,          \* response data ids the chip may choose (0 = no data)
           InitSsc,        \* set of initial counter values
           NakedRollback,  \* BOOLEAN, as-built
           AdvBudget       \* max adversary moves per behaviour (0 = honest link)
 
-VARIABLES tSsc, cSsc, cAlive, phase, ex, wire, chipDid, seen, delivered, advMoves, usedSsc
+VARIABLES tSsc, cSsc, cAlive, phase, ex, wire, chipDid, seen, delivered, advMoves, hist
 
-vars == << tSsc, cSsc, cAlive, phase, ex, wire, chipDid, seen, delivered, advMoves, usedSsc >>
+vars == << tSsc, cSsc, cAlive, phase, ex, wire, chipDid, seen, delivered, advMoves, hist >>
 
 TK == "K1"      \* this session's keys (terminal and chip share them)
 OK == "K2"      \* another session's keys
-NoVal == [t |-> "none"]          \* absent value (all values are records so that TLC can compare them)
+
+NoVal == [t |-> "none"]          \* absent value
 Junk == [t |-> "junk"]           \* bytes the adversary made up
 Sw(x) == [t |-> "sw", v |-> x]
 NoWire == [kind |-> "none", dos |-> << >>, sw |-> 0]
@@ -48,8 +52,6 @@ Dec(x) == (x + M - 1) % M
 
 Mac(k, ssc, d87, d99) == [t |-> "mac", k |-> k, ssc |-> ssc, d87 |-> d87, d99 |-> d99]
 Enc(k, pt) == [t |-> "enc", k |-> k, pt |-> pt]
-
-\* a data object on the wire
 DO(tag, val) == [tag |-> tag, val |-> val]
 
 \* the protected response the holder of key k produces at counter ssc for (data, sw)
@@ -62,18 +64,21 @@ Naked(sw) == [kind |-> "naked", dos |-> << >>, sw |-> sw]
 Garbage   == [kind |-> "garbage", dos |-> << >>, sw |-> 36864]
 Short     == [kind |-> "short", dos |-> << >>, sw |-> 0]      \* fewer than two octets
 
+SwSmError == 27016   \* 6988
+Mv(n, i, x) == [name |-> n, i |-> i, x |-> x]
+
 \* ---------------------------------------------------------------------------------------------
 Init == /\ tSsc \in InitSsc /\ cSsc = tSsc /\ cAlive = TRUE
         /\ phase = "idle" /\ ex = 1
-        /\ wire = NoWire /\ chipDid = NoChip /\ seen = {} /\ delivered = NoDelivery /\ advMoves = 0
-        /\ usedSsc = {}
+        /\ wire = NoWire /\ chipDid = NoChip /\ seen = << >> /\ delivered = NoDelivery /\ advMoves = 0
+        /\ hist = << >>
 
 \* Encode(): SSC+1, command MACed under (TK, SSC)
 TermEncode == /\ phase = "idle" /\ ex <= MaxEx
               /\ tSsc' = Inc(tSsc)
               /\ wire' = [kind |-> "cmd", k |-> TK, ssc |-> Inc(tSsc), cmd |-> ex]
               /\ phase' = "cmd" /\ chipDid' = NoChip /\ delivered' = NoDelivery
-              /\ UNCHANGED << cSsc, cAlive, ex, seen, advMoves, usedSsc >>
+              /\ UNCHANGED << cSsc, cAlive, ex, seen, advMoves, hist >>
 
 \* the adversary decides what the chip receives
 AdvOnCommand(m) ==
@@ -81,76 +86,106 @@ AdvOnCommand(m) ==
   /\ \/ m = "pass" /\ wire' = wire /\ advMoves' = advMoves /\ phase' = "chip"
      \/ m = "alter" /\ advMoves < AdvBudget /\ wire' = [wire EXCEPT !.k = "junk"] /\ advMoves' = advMoves + 1 /\ phase' = "chip"
      \/ m = "withhold" /\ advMoves < AdvBudget /\ wire' = NoWire /\ advMoves' = advMoves + 1 /\ phase' = "resp"
-  /\ UNCHANGED << tSsc, cSsc, cAlive, ex, chipDid, seen, delivered, usedSsc >>
+  /\ hist' = Append(hist, [ex |-> ex, cmdMove |-> m, chip |-> [acc |-> FALSE, data |-> 0, sw |-> 0], respMove |-> Mv("none", 0, 0),
+                             ret |-> [ok |-> FALSE, data |-> 0, sw |-> 0], tSsc |-> 0, cSsc |-> 0, cAlive |-> TRUE, authentic |-> TRUE])
+  /\ UNCHANGED << tSsc, cSsc, cAlive, ex, chipDid, seen, delivered >>
 
-\* the chip: 9303-11 9.8.
-ChipProcess ==
+\* the chip answers (d, sw) to a command it authenticated; anything else is a secure-messaging error
+ChipAnswer(d, sw) ==
   /\ phase = "chip"
   /\ IF cAlive /\ wire.k = TK /\ wire.ssc = Inc(cSsc)
-     THEN \E d \in Datas, sw \in Statuses :
-            LET r == Protected(TK, Inc(Inc(cSsc)), d, sw) IN
+     THEN LET r == Protected(TK, Inc(Inc(cSsc)), d, sw) IN
             /\ cSsc' = Inc(Inc(cSsc)) /\ cAlive' = TRUE
             /\ chipDid' = [cmd |-> wire.cmd, data |-> d, sw |-> sw]
-            /\ wire' = r /\ seen' = seen \cup {r}
-            /\ usedSsc' = usedSsc \cup {Inc(Inc(cSsc))}
+            /\ wire' = r /\ seen' = Append(seen, r)
+            /\ hist' = [hist EXCEPT ![Len(hist)] = [@ EXCEPT !.chip = [acc |-> TRUE, data |-> d, sw |-> sw]] ]
      ELSE /\ cAlive' = FALSE /\ cSsc' = cSsc /\ chipDid' = NoChip      \* SM error: unprotected answer, session deleted
-          /\ wire' = Naked(27016) /\ seen' = seen /\ usedSsc' = usedSsc   \* 6988
+          /\ wire' = Naked(SwSmError) /\ seen' = seen
+          /\ hist' = [hist EXCEPT ![Len(hist)] = [@ EXCEPT !.chip = [acc |-> FALSE, data |-> 0, sw |-> SwSmError]] ]
   /\ phase' = "resp"
   /\ UNCHANGED << tSsc, ex, delivered, advMoves >>
+
+ChipProcess == \E d \in Datas, sw \in Statuses : ChipAnswer(d, sw)
 
 \* sequence helpers
 RemoveAt(s, i) == SubSeq(s, 1, i - 1) \o SubSeq(s, i + 1, Len(s))
 InsertAt(s, i, x) == SubSeq(s, 1, i - 1) \o << x >> \o SubSeq(s, i, Len(s))
 SwapAt(s, i) == [s EXCEPT ![i] = s[i + 1], ![i + 1] = s[i]]
 
-\* everything the adversary can present as a response, relative to what is on the wire (w) and what it has seen
-AdvResponses(w) ==
-  { Short, Garbage } \cup { Naked(sw) : sw \in Statuses \cup {27016} } \cup seen
-  \cup { Protected(OK, s, d, sw) : s \in {Inc(tSsc)}, d \in Datas, sw \in Statuses }          \* cross-session, same counter
+\* labelled adversary moves on the response; w is what is on the wire (NoWire if the command was withheld)
+Apply(w, mv) ==
+  CASE mv.name = "pass"     -> w
+    [] mv.name = "short"    -> Short
+    [] mv.name = "garbage"  -> Garbage
+    [] mv.name = "naked"    -> Naked(mv.x)
+    [] mv.name = "replay"   -> seen[mv.i]
+    [] mv.name = "cross"    -> Protected(OK, Inc(tSsc), mv.i, mv.x)
+    [] mv.name = "outersw"  -> [w EXCEPT !.sw = mv.x]
+    [] mv.name = "doval"    -> [w EXCEPT !.dos[mv.i].val = IF w.dos[mv.i].tag = 99 THEN Sw(mv.x) ELSE Junk]
+    [] mv.name = "both"     -> [w EXCEPT !.sw = mv.x, !.dos[mv.i].val = Sw(mv.x)]
+    [] mv.name = "drop"     -> [w EXCEPT !.dos = RemoveAt(w.dos, mv.i)]
+    [] mv.name = "dup"      -> [w EXCEPT !.dos = InsertAt(w.dos, mv.i, w.dos[mv.i])]
+    [] mv.name = "swap"     -> [w EXCEPT !.dos = SwapAt(w.dos, mv.i)]
+    [] mv.name = "extra"    -> [w EXCEPT !.dos = InsertAt(w.dos, mv.i, DO(128, Junk))]
+    [] mv.name = "forge87"  -> [w EXCEPT !.dos = InsertAt(w.dos, 1, DO(87, Junk))]
+
+RespMoves(w) ==
+  { Mv("short", 0, 0), Mv("garbage", 0, 0) }
+  \cup { Mv("naked", 0, sw) : sw \in Statuses \cup {SwSmError} }
+  \cup { Mv("replay", j, 0) : j \in 1..Len(seen) }
+  \cup { Mv("cross", d, sw) : d \in Datas, sw \in Statuses }
   \cup (IF w.kind # "tlv" THEN {} ELSE
-        { [w EXCEPT !.sw = sw] : sw \in Statuses }                                           \* outer status replaced
-        \cup { [w EXCEPT !.dos[i].val = IF w.dos[i].tag = 99 THEN Sw(sw) ELSE Junk] : i \in 1..Len(w.dos), sw \in Statuses }  \* one DO value altered
-        \cup { [w EXCEPT !.sw = sw, !.dos[i].val = Sw(sw)] : i \in {j \in 1..Len(w.dos) : w.dos[j].tag = 99}, sw \in Statuses } \* both statuses
-        \cup { [w EXCEPT !.dos = RemoveAt(w.dos, i)] : i \in 1..Len(w.dos) }                 \* delete a DO
-        \cup { [w EXCEPT !.dos = InsertAt(w.dos, i, w.dos[i])] : i \in 1..Len(w.dos) }       \* duplicate a DO
-        \cup { [w EXCEPT !.dos = SwapAt(w.dos, i)] : i \in 1..(Len(w.dos) - 1) }             \* re-order
-        \cup { [w EXCEPT !.dos = InsertAt(w.dos, i, DO(128, Junk))] : i \in 1..Len(w.dos) } \* extra unauthenticated DO
-        \cup { [w EXCEPT !.dos = InsertAt(w.dos, 1, DO(87, Junk))] })                      \* forged DO'87' in front
+        { Mv("outersw", 0, sw) : sw \in Statuses \ {w.sw} }
+        \cup { Mv("doval", i, sw) : i \in 1..Len(w.dos), sw \in Statuses \ {w.sw} }
+        \cup { Mv("both", i, sw) : i \in {j \in 1..Len(w.dos) : w.dos[j].tag = 99}, sw \in Statuses \ {w.sw} }
+        \cup { Mv("drop", i, 0) : i \in 1..Len(w.dos) }
+        \cup { Mv("dup", i, 0) : i \in 1..Len(w.dos) }
+        \cup { Mv("swap", i, 0) : i \in 1..(Len(w.dos) - 1) }
+        \cup { Mv("extra", i, 0) : i \in 1..Len(w.dos) }
+        \cup { Mv("forge87", 0, 0) })
 
-AdvOnResponse ==
+AdvMove(mv) ==
   /\ phase = "resp"
-  /\ \/ wire # NoWire /\ wire' = wire /\ advMoves' = advMoves                                  \* pass
-     \/ advMoves < AdvBudget /\ \E r \in AdvResponses(wire) : r # wire /\ wire' = r /\ advMoves' = advMoves + 1
-     \/ wire = NoWire /\ advMoves >= AdvBudget /\ wire' = Short /\ advMoves' = advMoves           \* nothing to forward
+  /\ IF mv.name = "pass" THEN wire # NoWire /\ advMoves' = advMoves
+     ELSE /\ mv \in RespMoves(wire) /\ Apply(wire, mv) # wire
+          /\ \/ advMoves < AdvBudget /\ advMoves' = advMoves + 1
+             \/ wire = NoWire /\ mv.name = "short" /\ advMoves >= AdvBudget /\ advMoves' = advMoves   \* nothing to forward
+  /\ wire' = Apply(wire, mv)
+  /\ hist' = [hist EXCEPT ![Len(hist)] = [@ EXCEPT !.respMove = mv] ]
   /\ phase' = "decode"
-  /\ UNCHANGED << tSsc, cSsc, cAlive, ex, chipDid, seen, delivered, usedSsc >>
+  /\ UNCHANGED << tSsc, cSsc, cAlive, ex, chipDid, seen, delivered >>
 
-\* first DO with a given tag, or None
+AdvOnResponse == \E mv \in RespMoves(wire) \cup { Mv("pass", 0, 0) } : AdvMove(mv)
+
+\* first DO with a given tag, or NoVal
 FirstVal(dos, tag) == IF \E i \in 1..Len(dos) : dos[i].tag = tag
                       THEN dos[CHOOSE i \in 1..Len(dos) : dos[i].tag = tag /\ \A j \in 1..(i - 1) : dos[j].tag # tag].val
                       ELSE NoVal
 
-\* SecureMessaging.Decode, check by check
+\* SecureMessaging.Decode, check by check: result [ok, data, sw] and the new counter
+DecodeResult(w, ssc) ==
+  IF w.kind = "short" THEN [ok |-> FALSE, ssc |-> ssc]                        \* ParseRApdu fails: no counter change
+  ELSE IF w.kind = "naked" THEN [ok |-> FALSE, ssc |-> IF NakedRollback THEN Dec(ssc) ELSE ssc]
+  ELSE LET s == Inc(ssc) IN
+       IF w.kind = "garbage" THEN [ok |-> FALSE, ssc |-> s]
+       ELSE LET d87 == FirstVal(w.dos, 87) d99 == FirstVal(w.dos, 99) d8e == FirstVal(w.dos, 142) IN
+            IF d8e = NoVal THEN [ok |-> FALSE, ssc |-> s]
+            ELSE IF d8e # Mac(TK, s, d87, d99) THEN [ok |-> FALSE, ssc |-> s]
+            ELSE IF d99 = NoVal \/ d99.t # "sw" THEN [ok |-> FALSE, ssc |-> s]
+            ELSE IF d99.v # w.sw THEN [ok |-> FALSE, ssc |-> s]
+            ELSE IF d87 # NoVal /\ (d87.t # "enc" \/ d87.k # TK) THEN [ok |-> FALSE, ssc |-> s]
+            ELSE [ok |-> TRUE, ssc |-> s, data |-> IF d87 = NoVal THEN 0 ELSE d87.pt, sw |-> d99.v]
+
 TermDecode ==
   /\ phase = "decode"
-  /\ LET w == wire IN
-     IF w.kind = "short" THEN                                  \* ParseRApdu fails: no counter change
-          /\ tSsc' = tSsc /\ delivered' = [ok |-> FALSE]
-     ELSE IF w.kind = "naked" THEN                             \* no data: as-built roll-back
-          /\ tSsc' = IF NakedRollback THEN Dec(tSsc) ELSE tSsc
-          /\ delivered' = [ok |-> FALSE]
-     ELSE LET s == Inc(tSsc) IN
-          /\ tSsc' = s
-          /\ IF w.kind = "garbage" THEN delivered' = [ok |-> FALSE]
-             ELSE LET d87 == FirstVal(w.dos, 87) d99 == FirstVal(w.dos, 99) d8e == FirstVal(w.dos, 142) IN
-                  IF d8e = NoVal THEN delivered' = [ok |-> FALSE]
-                  ELSE IF d8e # Mac(TK, s, d87, d99) THEN delivered' = [ok |-> FALSE]
-                  ELSE IF d99 = NoVal \/ d99.t # "sw" THEN delivered' = [ok |-> FALSE]
-                  ELSE IF d99.v # w.sw THEN delivered' = [ok |-> FALSE]
-                  ELSE IF d87 # NoVal /\ (d87.t # "enc" \/ d87.k # TK) THEN delivered' = [ok |-> FALSE]
-                  ELSE delivered' = [ok |-> TRUE, cmd |-> ex, data |-> IF d87 = NoVal THEN 0 ELSE d87.pt, sw |-> d99.v]
+  /\ LET r == DecodeResult(wire, tSsc) IN
+     /\ tSsc' = r.ssc
+     /\ delivered' = IF r.ok THEN [ok |-> TRUE, cmd |-> ex, data |-> r.data, sw |-> r.sw] ELSE NoDelivery
+     /\ hist' = [hist EXCEPT ![Len(hist)] = [@ EXCEPT !.ret = [ok |-> r.ok, data |-> IF r.ok THEN r.data ELSE 0, sw |-> IF r.ok THEN r.sw ELSE 0],
+                                                        !.tSsc = r.ssc, !.cSsc = cSsc, !.cAlive = cAlive,
+                                                        !.authentic = (~r.ok \/ (chipDid # NoChip /\ chipDid.cmd = ex /\ chipDid.data = r.data /\ chipDid.sw = r.sw))] ]
   /\ phase' = "idle" /\ ex' = ex + 1 /\ wire' = NoWire
-  /\ UNCHANGED << cSsc, cAlive, chipDid, seen, advMoves, usedSsc >>
+  /\ UNCHANGED << cSsc, cAlive, chipDid, seen, advMoves >>
 
 Next == \/ TermEncode
         \/ \E m \in {"pass", "alter", "withhold"} : AdvOnCommand(m)
@@ -175,5 +210,5 @@ Lockstep == (advMoves = 0 /\ phase = "idle") => (tSsc = cSsc /\ cAlive)
 HonestDelivers == (advMoves = 0 /\ phase = "idle" /\ ex > 1) => delivered.ok
 
 \* bound artefact guard: with a tiny modulus a full wrap would make old counters valid again
-NoCounterReuse == Cardinality(usedSsc) * 2 <= M
+NoCounterReuse == 2 * MaxEx < M
 =============================================================================
